@@ -89,6 +89,59 @@ theorem C06_size_contradiction_4_00 (T : Nat) (st : RState) (i : In) (b : Blk) (
   rw [step_badRequest ha hf2, hf]
   exact ⟨rfl, rfl, accessed_items _ _ _ _, rfl⟩
 
+/-- **C06 (nothing else is let through).** The case analysis is complete: a Block1 block that is
+not `Accepted` — whatever the reason — is answered 4.08 or 4.00, does not reach the handler, and
+changes neither an assembly nor the rendering cache. -/
+theorem C06_not_accepted_is_refused (T : Nat) (st : RState) (i : In) (b : Blk)
+    (ha : i.assemble = true) (hb : i.req.block1 = some b) (hna : ¬ Accepted T st i b) :
+    ((step T st i).2.resp = errResp REQUEST_ENTITY_INCOMPLETE none ∨
+     (step T st i).2.resp = errResp BAD_REQUEST none) ∧
+    (step T st i).2.seen = none ∧
+    (step T st i).1.spool.items = (spoolAt T st i).items ∧
+    (step T st i).1.cache = cacheAt T st i := by
+  have h0 : b.num ≠ 0 := fun h => hna (Or.inl h)
+  cases hl : alookup (blockKey i.req) (spoolAt T st i).items with
+  | none =>
+    have := C06_bad_continuation_4_08 T st i b ha hb h0 (Or.inl hl)
+    exact ⟨Or.inl this.1, this.2⟩
+  | some asm =>
+    cases he : appendRequestBlock asm i.req b with
+    | ok self' =>
+      obtain ⟨h1, h2, h3, _⟩ := append_ok_iff.mp he
+      exact absurd (Or.inr ⟨asm, hl, h1, h2, h3⟩) hna
+    | error e =>
+      have hf := feed_append_error (T := T) (now := i.now) hb h0 hl he
+      cases e with
+      | valueError =>
+        have hf2 : (feedAndTake T i.now (spoolAt T st i) i.req).2 = .incomplete := by rw [hf]; rfl
+        rw [step_incomplete ha hf2, hf]
+        exact ⟨Or.inl rfl, rfl, accessed_items _ _ _ _, rfl⟩
+      | badRequest =>
+        have hf2 : (feedAndTake T i.now (spoolAt T st i) i.req).2 = .badRequest := by rw [hf]; rfl
+        rw [step_badRequest ha hf2, hf]
+        exact ⟨Or.inr rfl, rfl, accessed_items _ _ _ _, rfl⟩
+
+/-- **C06 (final block).** An accepted block without the more flag reaches the second stage as
+the stored request with the block's payload appended (its own payload for block 0), under the
+same block key when the stored request was filed under its own key. -/
+theorem C06_accepted_final_passes (T : Nat) (st : RState) (i : In) (b : Blk)
+    (ha : i.assemble = true) (hb : i.req.block1 = some b) (hm : b.more = false)
+    (hacc : Accepted T st i b) :
+    ∃ m, Passes T st i m ∧ m.block1 = some b ∧
+      ((b.num = 0 ∧ m = i.req) ∨
+       (b.num ≠ 0 ∧ ∃ old, alookup (blockKey i.req) (spoolAt T st i).items = some old ∧
+          m.payload = old.payload ++ i.req.payload ∧ blockKey m = blockKey old)) := by
+  by_cases h0 : b.num = 0
+  · refine ⟨i.req, ⟨ha, ?_⟩, hb, Or.inl ⟨h0, rfl⟩⟩
+    rw [feed_first hb h0]; simp [hm]
+  · rcases hacc with h | ⟨old, hl, hc, hs, hst⟩
+    · exact absurd h h0
+    · obtain ⟨self', hok⟩ : ∃ s, appendRequestBlock old i.req b = .ok s :=
+        ⟨_, append_ok_iff.mpr ⟨hc, hs, hst, rfl⟩⟩
+      obtain ⟨_, _, _, e⟩ := append_ok_iff.mp hok
+      refine ⟨self', ⟨ha, ?_⟩, by rw [e], Or.inr ⟨h0, old, hl, by rw [e], blockKey_append hok⟩⟩
+      rw [feed_append_ok hb h0 hl hok]; simp [hm]
+
 /-- **C06 (no 5.xx from the machinery).** Whatever the state and the request, the block-wise
 machinery never answers 5.xx by itself: a response code ≥ 5.00 is the code of a rendering the
 handler returned — for the complete request it is invoked with in this step, or of the kept
